@@ -113,3 +113,53 @@ pub fn install(property: &str, replay_dir: Option<&std::path::Path>) {
         }
     }
 }
+
+// ----- the recorder (impl -> spec): a fatal signal becomes a `panic` event at the end of the trace, which every trace
+// specification rejects; the process then ends like a normal recording (RV-RECORDED n).
+
+static REC_FD: std::sync::atomic::AtomicI32 = std::sync::atomic::AtomicI32::new(-1);
+static REC_N: std::sync::atomic::AtomicU64 = std::sync::atomic::AtomicU64::new(0);
+
+pub fn recorder_progress(n: u64) {
+    REC_N.store(n, Ordering::SeqCst);
+}
+
+extern "C" fn on_fatal_rec(sig: libc::c_int) {
+    let fd = REC_FD.load(Ordering::SeqCst);
+    let digits = [b'0' + (sig / 10 % 10) as u8, b'0' + (sig % 10) as u8];
+    if fd >= 0 {
+        wr(fd, b"\n{\"ev\":\"panic\",\"kind\":\"panic\",\"typed\":[],\"code\":0,\"mod\":0,\"sel\":0,\"ms\":0,\"panic\":\"fatal signal\",\"what\":\"the process received fatal signal ");
+        wr(fd, &digits);
+        wr(fd, b" (memory error / abort in the code under test)\"}\n");
+    }
+    // RV-RECORDED <n + 1>
+    let mut buf = [0u8; 24];
+    let mut n = REC_N.load(Ordering::SeqCst) + 1;
+    let mut i = buf.len();
+    loop {
+        i -= 1;
+        buf[i] = b'0' + (n % 10) as u8;
+        n /= 10;
+        if n == 0 || i == 0 {
+            break;
+        }
+    }
+    wr(1, b"\nRV-RECORDED ");
+    wr(1, &buf[i..]);
+    wr(1, b"\n");
+    unsafe { libc::_exit(0) }
+}
+
+/// Install the recorder's handlers; `fd` is the trace file (every event is flushed as soon as it is emitted).
+pub fn install_recorder(fd: i32) {
+    REC_FD.store(fd, Ordering::SeqCst);
+    unsafe {
+        for sig in [libc::SIGSEGV, libc::SIGBUS, libc::SIGILL, libc::SIGABRT, libc::SIGFPE] {
+            let mut sa: libc::sigaction = std::mem::zeroed();
+            sa.sa_sigaction = on_fatal_rec as *const () as usize;
+            libc::sigemptyset(&mut sa.sa_mask);
+            sa.sa_flags = libc::SA_ONSTACK | libc::SA_RESETHAND;
+            libc::sigaction(sig, &sa, std::ptr::null_mut());
+        }
+    }
+}
